@@ -47,7 +47,7 @@ def make_instance(rng, herm=True, max_order=3):
     for _ in range(50):
         try:
             inst = hermitian.gen_instance(rng, d=d, sizes=sizes, k=k, N=N, vtype=vt, fdkind="none", shuffle=False,
-                                          hermitian=herm, basis="unitary", complex_=cx)
+                                          hermitian=herm, basis="unitary" if herm else "pairs", complex_=cx)
             break
         except Regenerate:
             continue
@@ -102,7 +102,9 @@ def run_implicit(inst, p, mode):
     k = inst["k"]
     H = {n: (sparse.csr_array(v) if (n == (0,) * k or mode.get("sparse_terms")) else v) for n, v in H.items()}
     des = hermitian.designation(inst)["subspace_eigenvectors"]
-    vecs = [np.ascontiguousarray(v) for v in des[:-1]]
+    pairs = inst["basis"]["kind"] == "pairs"
+    vecs = [(np.ascontiguousarray(v[0]), np.ascontiguousarray(v[1])) if pairs else np.ascontiguousarray(v)
+            for v in des[:-1]]
     kw = {}
     bits, tol = 40, 1e-9
     if mode["solver"] == "kpm":
@@ -113,6 +115,11 @@ def run_implicit(inst, p, mode):
         # still lands on the true value with a margin of more than an order of magnitude, and anything
         # further away than 400 * atol * max(1, |value|) is rejected before snapping.
         bits, tol = 16, 400 * mode["atol"]
+    elif mode.get("nonhermitian"):
+        # biorthogonal integer bases are not unitary: the sparse LU solves carry rounding errors of 1e-13..1e-12,
+        # more than half the spacing of the 2^-40 grid.  True values have denominators <= 2^12 at these orders
+        # (gaps 1..8, entries in halves, unimodular integer bases): snap to 2^-28 (half-spacing 1.9e-9)
+        bits, tol = 28, 1e-9
     elif mode["solver"] == "direct_opts":
         kw = dict(solver_options=dict(eigenvalue_atol=1e-10))
     fd = hermitian.fd_argument(inst)
@@ -126,8 +133,10 @@ def run_implicit(inst, p, mode):
     nexp = sum(sizes[:-1])
     offs = np.concatenate(([0], np.cumsum(sizes[:-1])))
     Q = hermitian.to_numpy(inst["basis"]["M"], force_complex=True)
-    QB = Q[:, nexp:]
-    P = QB @ QB.conj().T
+    Qi = hermitian.to_numpy(inst["basis"]["Mi"], force_complex=True)
+    QB = Q[:, nexp:]             # right vectors of the implicit part
+    LBd = Qi[nexp:, :]           # L_B^dagger (= Q_B^dagger for a unitary basis)
+    P = QB @ LBd
     out = []
     with warnings.catch_warnings():
         warnings.simplefilter("ignore")
@@ -160,7 +169,10 @@ def run_implicit(inst, p, mode):
     T = np.zeros((nexp + d, d), dtype=complex)
     T[:nexp, :nexp] = np.eye(nexp)
     T[nexp:, nexp:] = QB
-    return dict(d=nexp + d, ords=[list(n) for n in order_seq(k, inst["N"])], out=out), T
+    Ti = np.zeros((d, nexp + d), dtype=complex)
+    Ti[:nexp, :nexp] = np.eye(nexp)
+    Ti[nexp:, nexp:] = LBd
+    return dict(d=nexp + d, ords=[list(n) for n in order_seq(k, inst["N"])], out=out), T, Ti
 
 
 def _job(args):
@@ -170,11 +182,11 @@ def _job(args):
     for _ in range(30):
         try:
             # KPM outputs are snapped to a 2^-16 grid: keep the true denominators well below it
-            inst = make_instance(rng, max_order=2 if mode["solver"] == "kpm" else 3)
+            inst = make_instance(rng, herm=not mode.get("nonhermitian"), max_order=2 if mode["solver"] == "kpm" else 3)
             twin_sess = hermitian.make_session(inst, idx + 1, p, spectrum=spectrum)
             A = dict(d=inst["d"], ords=twin_sess["ords"], out=twin_sess["out"])
-            B, T = run_implicit(inst, p, mode)
-            rel = dict(kind="basis", T=common.red_matrix(T, p), Ti=common.red_matrix(T.conj().T, p))
+            B, T, Ti = run_implicit(inst, p, mode)
+            rel = dict(kind="basis", T=common.red_matrix(T, p), Ti=common.red_matrix(Ti, p))
             ses = dict(sid=idx + 1, prop=prop, rel=rel, A=A, B=B)
             return ("ok", idx, ses, twin_sess, dict(instance=hermitian.describe(inst), mode=mode))
         except Regenerate:
@@ -187,7 +199,9 @@ def _job(args):
 
 
 MODES = [dict(solver="direct"), dict(solver="direct", sparse_terms=True), dict(solver="direct_opts"),
-         dict(solver="kpm", atol=1e-8)]
+         dict(solver="kpm", atol=1e-8),
+         # non-Hermitian problems: biorthogonal (R, L) pairs for the explicit blocks, hermitian=False
+         dict(solver="direct", nonhermitian=True)]
 
 
 def run(pid, tier, seed, replay=None):
@@ -212,6 +226,9 @@ def run(pid, tier, seed, replay=None):
     stats = dict(states=0, transitions=0)
     # the twins are judged against the reference
     twin_fail = {}
+    # (Hermitian twins only: the non-Hermitian explicit computation is C05's subject, with its known finding;
+    # C06 demands implicit = explicit for them all the same)
+    twins = [t for t in twins if not metas[t["sid"]]["mode"].get("nonhermitian")]
     if twins:
         r, done, fails, ill = core_hermitian.validate_sessions(twins, p)
         stats["states"] += r.distinct
@@ -247,7 +264,8 @@ def run(pid, tier, seed, replay=None):
         lines.append(f"VIOLATION property={pid} replay={path}")
     per_mode = {}
     for m in metas.values():
-        key = m["mode"]["solver"] + ("+sparse" if m["mode"].get("sparse_terms") else "")
+        key = m["mode"]["solver"] + ("+sparse" if m["mode"].get("sparse_terms") else "") + (
+            "+nonhermitian" if m["mode"].get("nonhermitian") else "")
         per_mode[key] = per_mode.get(key, 0) + 1
     coverage = dict(
         states=max(stats["states"], 1), transitions=max(stats["transitions"], 1),
@@ -260,5 +278,6 @@ def run(pid, tier, seed, replay=None):
     common.write_evidence(pid, tier, seed, coverage, time.time() - t0, len(violations),
                           ["alpha_snap: direct-solver outputs within 1e-9 of a multiple of 2^-40, KPM outputs (atol=1e-8) within 400*atol of "
                            "a multiple of 2^-16 (instances have power-of-two eliminated gaps, so the true values are dyadic)",
-                           "Hermitian problems only; non-Hermitian implicit mode is covered at solver level by C16"])
+                           "non-Hermitian implicit mode with the direct solver only (the KPM solver does not support "
+                           "distinct left and right vectors)"])
     return lines, len(violations)
